@@ -346,6 +346,32 @@ Fixpoint settle_trace (kinds : list kind) (prev : list (Z * list Z)) (src : list
       end
   end.
 
+(* ------------------------------------------------------------------ rounds with a changing environment
+
+   With chained summary tables (a Reference column into summary table S1 is a group-by column of summary table
+   S2) the auto-removal of a row of S1 rewrites, between two rounds, the references to it: source cells of S2's
+   source table and key cells of S2 itself (reference clean-up of BulkRemoveRecord, outside this model).  A
+   recorded round therefore carries the source cells as the helper formulas saw them in that round and the
+   summary rows as the engine had them when the round began; the model's own table must have exactly those row
+   ids (the keys are taken from the record).  Summary_proofs.settle_rounds_const: when nothing is rewritten this
+   is settle_trace. *)
+Definition round := (list Z * list srow * list mrow)%type.     (* dirty ids, source rows, summary rows at the start *)
+
+Fixpoint settle_rounds (kinds : list kind) (prev : list (Z * list Z)) (summ : list mrow) (rounds : list round)
+  : option (list orow) :=
+  match rounds with
+  | [] => None
+  | (d, src, start) :: rest =>
+      if zs_eqb (map fst summ) (map fst start) then
+        let '(s1, hs) := pass_d kinds d prev src start in
+        let rows := with_groups s1 hs in
+        match rest with
+        | [] => if forallb nonempty_group rows then Some rows else None
+        | _ => settle_rounds kinds hs (auto_remove rows) rest
+        end
+      else None
+  end.
+
 (* ------------------------------------------------------------------ for the correspondence check *)
 
 Definition orow_eqb (a b : orow) : bool :=
@@ -358,20 +384,23 @@ Fixpoint orows_eqb (a b : list orow) : bool :=
   | _, _ => false
   end.
 
-(* case: ((kinds, dirty sets per round, prev, src, summ), expected rows) *)
-Definition check_case
-  (c : (list kind * list (list Z) * list (Z * list Z) * list srow * list mrow) * list orow) : bool :=
-  let '(kinds, dirties, prev, src, summ, expect) := c in
-  match settle_trace kinds prev src summ dirties with
+Definition first_start (rounds : list round) : list mrow :=
+  match rounds with [] => [] | r :: _ => snd r end.
+
+Definition last_src (rounds : list round) : list srow := snd (fst (last rounds ([], [], []))).
+
+(* case: ((kinds, prev, rounds), expected rows) *)
+Definition check_case (c : (list kind * list (Z * list Z) * list round) * list orow) : bool :=
+  let '(kinds, prev, rounds, expect) := c in
+  match settle_rounds kinds prev (first_start rounds) rounds with
   | Some rows => orows_eqb rows expect
   | None => false
   end.
 
-(* the same with every helper cell re-evaluated in every round (settle_loop) *)
-Definition check_case_full
-  (c : (list kind * list (list Z) * list (Z * list Z) * list srow * list mrow) * list orow) : bool :=
-  let '(kinds, _, prev, src, summ, expect) := c in
-  match settle kinds prev src summ with
+(* the same with every helper cell re-evaluated in every round (settle_loop), on the final source cells *)
+Definition check_case_full (c : (list kind * list (Z * list Z) * list round) * list orow) : bool :=
+  let '(kinds, prev, rounds, expect) := c in
+  match settle kinds prev (last_src rounds) (first_start rounds) with
   | Some rows => orows_eqb rows expect
   | None => false
   end.
